@@ -125,6 +125,24 @@ def run(chk):
     cases.append(("partial-tie::differing endpoint sees only tied inputs", cH, cI, {"a"}, None))
     cJ = build({"a": ("input", []), "c": ("input", []), "o1": ("buf", ["a"]), "o2": ("or", ["a", "c"])}, outputs=["o1", "o2"])
     cases.append(("different-inputs::differing endpoint sees only common inputs", cH, cJ, None, None))
+    # many compared endpoints (the comparator results are collected by one gate - or a tree of them): 5 and 9 outputs, the
+    # two circuits identical or differing at exactly one output, each output in turn
+    gate_cycle = ["and", "or", "xor", "nand", "nor", "xnor"]
+    for n_out in (5, 9):
+        spec = {"a": ("input", []), "b": ("input", []), "c": ("input", [])}
+        for i in range(n_out):
+            spec[f"o{i}"] = (gate_cycle[i % 6], [["a", "b"], ["b", "c"], ["a", "b", "c"]][i % 3])
+        cM = build(spec, outputs=[f"o{i}" for i in range(n_out)])
+        cases.append((f"{n_out}-endpoints::identical", cM, cM.copy(), None, None))
+        for j in range(n_out):
+            t = cM.type(f"o{j}")
+            other = {"and": "nand", "nand": "and", "or": "nor", "nor": "or", "xor": "xnor", "xnor": "xor"}[t]
+            cases.append((f"{n_out}-endpoints::only o{j} differs", cM, retyped(cM, f"o{j}", other), None, None))
+    # self-miters (c1 omitted) of circuits whose own node names contain the copy prefixes
+    cS = build({"c0_n": ("input", []), "c1_n": ("input", []), "xc0_y": ("and", ["c0_n", "c1_n"]), "c1_c0_z": ("xor", ["xc0_y", "c0_n"])}, outputs=["c1_c0_z", "xc0_y"])
+    cases.append(("self-miter::names containing c0_ / c1_", cS, None, None, None))
+    cases.append(("self-miter::names containing c0_ / c1_::one tied startpoint", cS, None, {"c0_n"}, None))
+    cases.append(("self-miter::plain", cH, None, None, None))
     for name, c0, c1, sps, eps in cases:
         r = P.call(FILE, "miter", c0, c1, sps, eps)
         n += 1
@@ -132,6 +150,8 @@ def run(chk):
         if r[0] != "return" or not isinstance(r[1], RefCircuit):
             chk.ob("C04.D.subsets-and-defaults", key, False, file=FILE, func="miter", line=fi.node.lineno, fact={"result": str(r)[:200]})
             continue
+        if c1 is None:
+            c1 = c0
         tied = set(sps) if sps else c0.startpoints() & c1.startpoints()
         comp = set(eps) if eps else c0.endpoints() & c1.endpoints()
         prob = check_miter(r[1], c0, c1, tied, comp)
